@@ -74,6 +74,11 @@ def run(ck, F):
     def obs(cls, accs):
         st = State()
         o = st.new_obj(cls)
+        # the object's category code is the one its class is stamped with (C06), not an unknown
+        from facts import category_of
+        cat = category_of(F, cls)
+        if cat is not None:
+            st.heap[o[1]].fields['category'] = ('k', cat[1], 'enum:ipr::Category_code::' + cat[0])
         names = {o[1]: 'R'}
         return contracts.observe(S, F, st, o, names, accessor_filter=lambda n: n in accs), st, o
 
